@@ -204,6 +204,104 @@ def gen_record(rng, cls=None, nmax=40):
                 missing=sorted(missing), lead=lead, trail=trail)
 
 
+# ------------------------------------------------------------------ one ulp between two ways of writing the threshold
+#
+# "Jump threshold x time step" is a product of three numbers (threshold, step in seconds, 1/3600) that a program can
+# round in several orders; the results differ by an ulp for many (step, threshold) pairs, never for steps of 15 / 30 /
+# 60 min.  The classification uses the product in two places (interstorm flags, rise detection), which must agree on
+# every increment, in particular on increments EQUAL to one of the candidate products.
+
+ULP_STEPS = [360, 600, 1200, 100, 90, 460, 3900, 300, 420, 720, 2400, 60, 540, 900, 1800]
+ULP_THRS = [3.0, 0.3, 2.5, 5.0, 0.7, 1.1, 7.0, 0.1, 6.0, 9.0, 10.0, 0.9, 0.5, 4.0]
+
+
+def delta_candidates(thr, step):
+    """Distinct binary64 values of thr [mm/h] x step [s] / 3600 under different orders of evaluation, ascending.
+    The first expression is the one written in the harness (and the unchanged classify): thr * (step / 3600.)."""
+    return sorted({thr * (step / 3600.0), thr * step / 3600.0, thr / 3600.0 * step, thr / (3600.0 / step),
+                   thr * (step / 60.0) / 60.0, thr / 60.0 * (step / 60.0)})
+
+
+ULP_PAIRS = [(s, t) for s in ULP_STEPS for t in ULP_THRS if len(delta_candidates(t, s)) >= 2]
+ULP_PAIRS_SAME = [(s, t) for s in ULP_STEPS for t in ULP_THRS if len(delta_candidates(t, s)) == 1]
+
+
+def boundary_values(thr, step):
+    """Every candidate product, and the floats just below the smallest / just above the largest of them."""
+    c = delta_candidates(thr, step)
+    return [nextafter(c[0], False)] + c + [nextafter(c[-1])]
+
+
+def exact_next(z, d):
+    """A level z' with z' - z == d in binary64 when there is one next to z + d (there is when |z|, |z'| do not
+    exceed the binade of d by much: levels of a few tenths of a millimetre for sub-hourly steps), else z + d."""
+    c = z + d
+    for k in (c, nextafter(c), nextafter(c, False), nextafter(nextafter(c)), nextafter(nextafter(c, False), False)):
+        if k - z == d:
+            return k
+    return c
+
+
+def gen_foot_record(rng, nmax=30):
+    """Record of class 'foot': events whose rise begins with one or two increments taken from `boundary_values`
+    (realised exactly: the level is brought close to zero first), at the foot of clearly fast increments; the
+    foot lies on 1..3 dry samples that follow a light shower (which closes the initial / any 'mystery' period, so
+    that the dry samples can form an interstorm interval); the heavy rain arrives with or after the first fast
+    increment.  Some in-rise increments and some recession increments are boundary values too.  (step, jump
+    threshold) mostly from ULP_PAIRS.  rec['edge_exact'] = number of boundary increments realised exactly."""
+    step, thr_j = rng.choice(ULP_PAIRS) if rng.random() < 0.85 else rng.choice(ULP_PAIRS_SAME)
+    thr_s = rng.choice(THRS)
+    n = rng.randrange(8, max(9, nmax))
+    heavy, light, fast, edge = [False] * n, [False] * n, [False] * n, [False] * n
+    i = rng.randrange(0, 3)
+    while i < n - 4:
+        if rng.random() < 0.75:
+            light[i] = True
+        dry = rng.randrange(1, 4)
+        q = i + dry                                   # last dry sample of the foot
+        for k in range(max(i, q - rng.randrange(1, 3)), q):
+            edge[k] = True                            # boundary increments k -> k+1, up to sample q
+        lr = rng.randrange(2, 5)
+        for k in range(q, min(n - 1, q + lr)):
+            fast[k] = True
+        s0 = q + rng.randrange(0, 3)                  # heavy rain from sample s0 (>= q: at or after the first fast increment)
+        if s0 == q and rng.random() < 0.7:
+            s0 += 1
+        for k in range(min(n, s0), min(n, s0 + rng.randrange(1, 4))):
+            heavy[k] = True
+        i = max(q + lr, s0 + 1) + rng.randrange(2, 5)
+    bvals = boundary_values(thr_j, step)
+    delta = thr_j * (step / 3600.0)
+    rain = [rain_value(rng, thr_s, 'heavy') if heavy[k] else
+            (rng.choice([thr_s / 2, 0.1, thr_s, 1.0 if thr_s > 1.0 else thr_s / 4]) if light[k] else 0.0) for k in range(n)]
+    zeta, exact = [rng.choice([0.0, 0.1, 0.5, -0.25])], 0
+    for k in range(n - 1):
+        if edge[k]:
+            if not (k > 0 and (edge[k - 1] or fast[k - 1])):
+                zeta[-1] = min(zeta[-1], rng.choice([0.0, 0.1, -0.1, 0.05, 0.2]))   # a fall of any size is never a jump
+            d = rng.choice(bvals)
+            z = exact_next(zeta[-1], d)
+            exact += (z - zeta[-1] == d)
+        elif fast[k]:
+            if rng.random() < 0.2:
+                d = rng.choice(bvals[1:])
+                z = exact_next(zeta[-1], d)
+                exact += (z - zeta[-1] == d)
+            else:
+                z = zeta[-1] + rng.choice([2 * delta, delta + 1.0, 3 * delta + 0.5, delta + 0.75])
+        elif rng.random() < 0.15:
+            d = rng.choice(bvals[:-1])
+            z = exact_next(zeta[-1], d)
+            exact += (z - zeta[-1] == d)
+        else:
+            z = zeta[-1] + incr_value(rng, delta, 'fall')
+        zeta.append(z)
+    t0 = rng.choice([1361318400, 1356998400, 1583020800, 946684800]) // step * step
+    return dict(cls='foot', step=step, thr_s=thr_s, thr_j=thr_j, t0=t0, rain=rain, zeta=zeta, missing=[],
+                lead=rng.randrange(0, 3), trail=rng.randrange(0, 3), edge_exact=int(exact),
+                products=len(delta_candidates(thr_j, step)))
+
+
 def refine(rng, rec, island=True):
     """The same record with the water level logged `fine` (3, or 2 where the step is not a multiple of 3) times
     per rainfall step: fine samples linearly interpolated between the grid-instant values, every outage of the
@@ -247,10 +345,67 @@ def refine(rng, rec, island=True):
     return out
 
 
-def fine_share(recs, rng, every=4, phase=2):
-    """Every `every`-th record (from index `phase`) refined, most of them with an island."""
-    return [refine(rng, rec, island=(rng.random() < 0.8)) if k % every == phase else rec
-            for k, rec in enumerate(recs)]
+def fine_outages(rec):
+    """Maximal runs [lo, hi] of lost fine readings of a refined record."""
+    runs, fm = [], sorted(rec.get('fine_missing', []))
+    for f in fm:
+        if runs and f == runs[-1][1] + 1:
+            runs[-1][1] = f
+        else:
+            runs.append([f, f])
+    return runs
+
+
+def run_into_outages(rng, rec, share=0.75):
+    """A refined record (see `refine`) in which most outages begin right after a reading that is OFF the rainfall
+    grid and end right before a reading that is off the grid (where the outage is long enough to be trimmed by one
+    fine reading without freeing a grid instant), with heavy rain and clearly fast increments from two grid samples
+    before the outage to two after it: a storm and a rise run into the outage and another pair runs out of it, the
+    level after the outage is higher than before.  Whatever labels the grid instants (first / last instant of a
+    gap-free stretch) decides where those intervals end.  rec['run_in'] = number of outages treated."""
+    fine = rec.get('fine', 1)
+    if fine < 2:
+        return rec
+    n, step = len(rec['zeta']), rec['step']
+    delta = rec['thr_j'] * (step / 3600.0)
+    rain, zeta = list(rec['rain']), list(rec['zeta'])
+    incs = [b - a for a, b in zip(zeta, zeta[1:])]
+    fmiss, treated = set(rec['fine_missing']), 0
+    for lo, hi in fine_outages(rec):
+        if rng.random() >= share:
+            continue
+        if (lo - 1) % fine == 0 and lo % fine != 0 and lo + 1 <= hi:
+            fmiss.discard(lo)                      # reading lo (off the grid) is now the last one before the outage
+            lo += 1
+        if (hi + 1) % fine == 0 and hi % fine != 0 and hi - 1 >= lo:
+            fmiss.discard(hi)                      # reading hi (off the grid) is now the first one after the outage
+            hi -= 1
+        a, b = -(-lo // fine), hi // fine          # grid samples inside the outage: a..b (none when a > b)
+        for k in range(max(0, a - 2), min(n, b + 3)):
+            rain[k] = rain_value(rng, rec['thr_s'], 'heavy')
+        for k in range(max(0, a - 3), min(n - 1, b + 3)):
+            incs[k] = rng.choice([delta + 1.0, 3 * delta + 0.5, 2 * delta + 0.25])
+        treated += 1
+    if not treated:
+        return rec
+    z = [zeta[0]]
+    for d in incs:
+        z.append(z[-1] + d)
+    out = dict(rec)
+    out.update(rain=rain, zeta=z, fine_missing=sorted(fmiss), run_in=treated)
+    return out
+
+
+def fine_share(recs, rng, every=4, phase=2, run_in_rng=None):
+    """Every `every`-th record (from index `phase`) refined, most of them with an island.  With `run_in_rng` (a
+    stream of its own) every second refined record is passed through `run_into_outages`."""
+    out = [refine(rng, rec, island=(rng.random() < 0.8)) if k % every == phase else rec
+           for k, rec in enumerate(recs)]
+    if run_in_rng is not None:
+        fines = [k for k, rec in enumerate(out) if rec.get('fine', 1) > 1]
+        for k in fines[::2]:
+            out[k] = run_into_outages(run_in_rng, out[k])
+    return out
 
 
 def to_dataset(rec, shift=0, tz='UTC', fmt_time=None):
